@@ -134,6 +134,44 @@ Definition new_config_ok (validated : bool) (mux_ok : list str -> bool) (rs : li
   | _ => if validated then mux_ok (map rpath rs) else true
   end.
 
+(* ---- the public construction paths of a *Config (config.go) ----
+   NewConfig(addr, routes, opts...) starts from the defaults, applies the functional options IN ORDER and then
+   validates c.Routes.  Options: WithDrainTimeout/ReadTimeout/WriteTimeout/IdleTimeout set one field;
+   WithConfigCopy(src) copies the four timeouts (and ServerCreator and the request context, which the model does
+   not carry) from src - NOT the address and NOT the routes - and is a no-op for a nil src;
+   WithServerCreator / WithRequestContext (nil arguments included) touch no modelled field.
+   No option can change the address or the routes, and - this is what C19 needs - nothing an option copies
+   decides whether the routes are validated. *)
+Inductive copt :=
+| ODrain (z : Z) | ORead (z : Z) | OWrite (z : Z) | OIdle (z : Z)
+| OCopy (src : option config)
+| ONone.
+
+Definition default_config (a : str) (rs : list route) : config :=
+  {| addr := a; drain := 30000000000%Z; read_to := 15000000000%Z; write_to := 15000000000%Z;
+     idle_to := 60000000000%Z; routes := rs |}.
+
+Definition apply_opt (c : config) (o : copt) : config :=
+  match o with
+  | ODrain z => {| addr := addr c; drain := z; read_to := read_to c; write_to := write_to c; idle_to := idle_to c; routes := routes c |}
+  | ORead z => {| addr := addr c; drain := drain c; read_to := z; write_to := write_to c; idle_to := idle_to c; routes := routes c |}
+  | OWrite z => {| addr := addr c; drain := drain c; read_to := read_to c; write_to := z; idle_to := idle_to c; routes := routes c |}
+  | OIdle z => {| addr := addr c; drain := drain c; read_to := read_to c; write_to := write_to c; idle_to := z; routes := routes c |}
+  | OCopy (Some src) => {| addr := addr c; drain := drain src; read_to := read_to src; write_to := write_to src;
+                           idle_to := idle_to src; routes := routes c |}
+  | OCopy None | ONone => c
+  end.
+
+(* NewConfig: None = an error is returned *)
+Definition new_config (validated : bool) (mux_ok : list str -> bool) (a : str) (rs : list route)
+  (opts : list copt) : option config :=
+  let c := fold_left apply_opt opts (default_config a rs) in
+  if new_config_ok validated mux_ok (routes c) then Some c else None.
+
+(* boot(): NewConfig(cfg.ListenAddr, cfg.Routes, WithConfigCopy(cfg), WithRequestContext(r.ctx)) *)
+Definition boot_config (validated : bool) (mux_ok : list str -> bool) (c : config) : option config :=
+  new_config validated mux_ok (addr c) (routes c) [OCopy (Some c); ONone].
+
 (* does any path occur twice? (the hypothesis of C13_equal_iff is its negation) *)
 Fixpoint path_in (p : str) (l : list route) : bool :=
   match l with
